@@ -8,6 +8,10 @@ RULE = ("engine c09: 2-4 writer threads, each owning 2 ingress ids, issue 1-8 Up
         "to completion and every prefix is queried; a second profile (600 quick / 8000 thorough cases) has sessions with IPv4/IPv6 MULTICAST routes "
         "(on prefixes no unicast route uses, so that match_prefix shows them) withdrawn family by family (IPv4 unicast, IPv6 unicast, in either order) "
         "and then session-wide (Withdraw(id, None) / WithdrawBulk / a multicast family), other sessions holding routes for the same prefixes; "
+        "a third profile (400 quick / 5000 thorough) has a session that asks for the withdrawal of a family the RIB has no support for "
+        "(Update::Withdraw(id, Some(MPLS / VPN / route target / FlowSpec / VPLS / EVPN / unknown)): that one call panics under the RIB's withdraw mutex, "
+        "observation `panic` - caught around that one call) followed by session-wide withdrawals of the OTHER sessions, which must return and take effect; "
+        "such requests are also sprinkled over the first profile (8 % of its Withdraws) and over the soak (3-20 per mille of the Updates); "
         "a case is non-trivial when some final answer lists ids of two or more writers and at "
         "least one withdrawn entry; distinct = distinct case text. extra c09-soak: free-running writer threads + readers on one RibUnitRunner, "
         "per-update deadline, final answers judged by the extracted model against the writers' own logs")
@@ -15,7 +19,8 @@ TRUSTED_BASE = [
     "Coq 8.16.1 kernel (coqc; coqchk in thorough); no native_compute",
     "extraction with ExtrOcamlBasic only; OCaml driver oracle/{conv,eng_c09,oracle}.ml",
     "Rust harness /verif/harness (engine c09, special c09-soak): real RibUnitRunner::process_update (rotonda::verif::rib, feature verif-hooks), "
-    "real Rib::insert / withdraw_for_ingress / match_prefix, real rotonda-store 0.4.1; routes built from rotonda::bgp::encode UPDATEs",
+    "real Rib::insert / withdraw_for_ingress / match_prefix, real rotonda-store 0.4.1; routes built from rotonda::bgp::encode UPDATEs; "
+    "a panic is caught (catch_unwind) around the single process_update call that raised it and reported as that call's outcome",
     "modelled, not verified: src/units/rib_unit/{unit.rs process_update, rib.rs insert_prefix / withdraw_for_ingress}; rotonda-store is a finite map "
     "(one atomic step per (prefix, id) store call - it holds the per-prefix record-map mutex) plus four bitmaps whose update loop "
     "(custom_alloc.rs mark_mui_as_withdrawn) is modelled access by access: load, compare-and-swap on the identity of the heap object, "
@@ -28,10 +33,15 @@ ASSUMPTIONS = [
     "bounded completion is proved for schedules that give every writer a turn in each block (fairness of the OS / tokio scheduler and of "
     "std::sync::Mutex is assumed, not proved); wall-clock time is only measured (soak, per-update deadline)",
     "a reader's match_prefix is treated as one atomic read in C09_reader_sees_owner_prefix; the real one reads the record and the bitmap separately",
+    "a call that panics (withdraw_for_ingress for an unsupported family) ends that call only: the engines go on with the thread's next Update; in rotonda "
+    "the publisher's task ends there, i.e. the thread's program is the shorter one - the theorems quantify over all programs",
 ]
 
 IDS = 2
 FAMS = [(0, 50), (1, 25), (2, 15), (3, 10)]
+# families Rib::withdraw_for_ingress has no arm for (harness/src/engines/c09.rs afisafi): 4 IPv4 MPLS unicast .. 9 IPv4 FlowSpec,
+# 10 IPv6 FlowSpec, 11 VPLS, 12 EVPN, 13.. AfiSafiType::Unsupported
+UNSUP = [4, 5, 6, 7, 8, 9, 10, 11, 12, 13, 14]
 
 
 def ids_of(t):
@@ -54,6 +64,8 @@ def update(rng, t):
     if k == "B":
         return "B " + ",".join(payload(rng, t) for _ in range(rng.range(2, 5)))
     if k == "W":
+        if rng.chance(8):
+            return "W %d %d" % (rng.choice(ids_of(t)), rng.choice(UNSUP))
         return "W %d %s" % (rng.choice(ids_of(t)), "-" if rng.chance(55) else str(rng.weighted(FAMS)))
     if k == "X":
         return "X " + ",".join(str(rng.choice(ids_of(t))) for _ in range(rng.range(1, 3)))
@@ -142,6 +154,76 @@ def gen_famdown(rng):
     return ";".join(items + sched)
 
 
+# ---- profile "one session's request blows up, the others go down afterwards": Update::Withdraw(id, Some(family)) for a family
+# Rib::withdraw_for_ingress has no arm for panics while it holds the Rib's withdraw mutex (std::sync::Mutex: poisoned from then
+# on). That is the outcome of that one call. The sessions that go down later - alone (Withdraw(id, None), a single family) or in
+# bulk (WithdrawBulk) - must return normally and be withdrawn; routes announced later must go in.
+def gen_poison(rng):
+    nt = rng.range(2, 4)
+    progs = []
+    culprit = rng.below(nt)
+    for t in range(nt):
+        ids = ids_of(t)
+        prog = []
+        anns = []
+        for i in ids:
+            for _ in range(rng.range(1, 3)):
+                fam = rng.weighted(FAMS)
+                p = rng.choice(MC_PFX) if fam >= 2 else 1 + rng.below(4)
+                anns.append("%d:%d:%d:%d" % (i, fam, p, rng.below(6)))
+        rng_shuffle(rng, anns)
+        while anns:
+            k = rng.range(1, min(4, len(anns)))
+            prog.append(("S " if k == 1 else "B ") + ",".join(anns[:k]))
+            anns = anns[k:]
+        downs = []
+        for i in ids:
+            if rng.chance(80):
+                downs.append(rng.weighted([("W %d -" % i, 45), ("X %d" % i, 25), ("X " + ",".join(map(str, ids)), 10),
+                                           ("W %d %d" % (i, rng.weighted(FAMS)), 20)]))
+        if t == culprit or rng.chance(15):
+            bad = ["W %d %d" % (rng.choice(ids), rng.choice(UNSUP)) for _ in range(1 if rng.chance(75) else rng.range(2, 3))]
+            where = rng.weighted([("first", 35), ("before-downs", 40), ("anywhere", 25)])
+            if where == "first":
+                prog = bad + prog + downs
+            elif where == "before-downs":
+                prog = prog + bad + downs
+            else:
+                prog = prog + downs
+                for b in bad:
+                    prog.insert(rng.below(len(prog) + 1), b)
+        else:
+            prog = prog + downs
+        if rng.chance(25):
+            prog.append(update(rng, t))
+        progs.append(prog)
+    items = ["p %d %s" % (t, u) for t, prog in enumerate(progs) for u in prog]
+    sched = []
+    mode = rng.weighted([("culprit-first", 45), ("random", 35), ("none", 20)])
+    left = [len(p) for p in progs]
+    if mode == "culprit-first":
+        # the culprit runs up to and including its (first) unsupported request, then the others
+        n = next((k for k, u in enumerate(progs[culprit]) if is_unsup(u)), len(progs[culprit]) - 1) + 1
+        sched += ["s %d" % culprit] * n
+        left[culprit] -= n
+    if mode != "none":
+        pending = [t for t in range(nt) for _ in range(left[t])]
+        keep = rng.choice([len(pending), rng.range(0, len(pending))])
+        k = 0
+        while pending and k < keep:
+            t = pending.pop(rng.below(len(pending)))
+            sched.append("s %d" % t)
+            k += 1
+            if rng.chance(20):
+                sched.append("q %d %d" % (rng.below(2), 1 + rng.below(8)))
+    return ";".join(items + sched)
+
+
+def is_unsup(u):
+    t = u.split()
+    return t[0] == "W" and t[2] != "-" and int(t[2]) >= 4
+
+
 def rng_sample(rng, xs, n):
     xs = list(xs)
     return [xs.pop(rng.below(len(xs))) for _ in range(min(n, len(xs)))]
@@ -160,6 +242,9 @@ def gen(rng, tier):
     r2 = rng.fork("famdown")
     for _ in range(600 if tier == "quick" else 8000):
         yield gen_famdown(r2)
+    r3 = rng.fork("poison")
+    for _ in range(400 if tier == "quick" else 5000):
+        yield gen_poison(r3)
 
 
 def final_tokens(out):
@@ -194,12 +279,46 @@ def classify(case, out):
         ks.append("multicast")
     if family_then_session(its):
         ks.append("per-family-withdrawals-then-session-wide-on-a-multicast-session")
+    if any(i.startswith("p ") and is_unsup(i.split(None, 2)[2]) for i in its):
+        ks.append("unsupported-family-request")
+    if "panic" in out.split():
+        ks.append("a-call-panicked")
+    if withdrawal_after_panic(its):
+        ks.append("session-wide-withdrawal-of-another-session-after-a-panic")
     fin = final_tokens(out)
     if any("=W" in t for t in fin):
         ks.append("final-has-withdrawn")
     if any(t.count(",") >= 2 for t in fin):
         ks.append("prefix-shared-by>=3-ids")
     return ks
+
+
+def withdrawal_after_panic(its):
+    """in execution order (the schedule, then every thread to its end, thread 0 first) a Withdraw / WithdrawBulk of one writer
+    comes after an unsupported-family request of ANOTHER writer"""
+    progs = {}
+    for i in its:
+        t = i.split(None, 2)
+        if t[0] == "p":
+            progs.setdefault(int(t[1]), []).append(t[2])
+    pos = {t: 0 for t in progs}
+    order = []
+    for i in its:
+        t = i.split()
+        if t[0] == "s":
+            w = int(t[1])
+            if w in progs and pos[w] < len(progs[w]):
+                order.append((w, progs[w][pos[w]]))
+                pos[w] += 1
+    for w in sorted(progs):
+        order += [(w, u) for u in progs[w][pos[w]:]]
+    culprits = set()
+    for w, u in order:
+        if is_unsup(u):
+            culprits.add(w)
+        elif u[0] in "WX" and (culprits - {w}):
+            return True
+    return False
 
 
 def family_then_session(its):
@@ -225,6 +344,14 @@ def family_then_session(its):
 
 def corpus():
     return [
+        # seeded change C09-b2 (the withdraw mutex taken with lock().unwrap()): session 1 asks for FlowSpec to be withdrawn - that call
+        # panics under the mutex -, then eight other sessions go down, one by one and in bulk: all must return and be withdrawn
+        "p 0 S 1:0:1:1;p 0 W 1 9;p 1 S 2:0:1:2;p 1 W 2 -;p 2 S 3:0:1:3;p 2 W 3 -;p 3 B 4:0:1:4,5:1:1:4,6:2:5:4,7:3:6:4;p 3 X 4,5,6,7;"
+        "p 1 S 8:0:2:1;p 1 W 8 0;p 2 S 9:1:2:1;p 2 X 9;s 0;s 0;q 0 1;s 1;s 1;s 2;s 2;q 0 1;s 3;s 3;q 1 1;q 0 5;q 1 6;s 1;s 1;s 2;s 2;q 0 2;q 1 2",
+        # the request that blows up is the very first thing the RIB sees; a second one later; announcements after it still go in
+        "p 0 W 11 12;p 1 B 21:0:1:2,21:1:1:2;p 1 W 21 -;p 0 S 11:0:1:1;p 0 W 11 4;p 0 W 11 -;p 1 S 22:0:1:5;s 0;s 1;s 1;q 0 1;s 0;s 0;s 0;s 1;q 0 1",
+        # nothing scheduled: every thread runs to its end, thread 0 (with an AfiSafiType::Unsupported request) first
+        "p 0 B 11:0:1:1,12:2:5:1;p 0 W 12 14;p 1 S 21:0:1:2;p 1 X 21,22;p 2 S 31:2:5:3;p 2 W 31 2",
         # seeded change C09-3 (a "nothing left to withdraw" fast path that looks at the unicast store only): a session with
         # multicast routes is withdrawn for IPv4 unicast, then IPv6 unicast, then session-wide - its multicast routes must
         # end withdrawn, the other session's must stay active
@@ -243,8 +370,9 @@ def corpus():
 
 
 # (writers, updates per writer, per-update deadline ms, readers, percentage of session-wide withdrawals)
-SOAK_CFG = {"quick": [(8, 6000, 5000, 2, 16), (16, 1500, 5000, 2, 30), (3, 400, 5000, 1, 60)],
-            "thorough": [(16, 40000, 10000, 4, 16), (8, 40000, 10000, 2, 50), (32, 5000, 10000, 4, 30), (4, 3000, 10000, 1, 80)]}
+# ... , requests for an unsupported family per mille of the Updates)
+SOAK_CFG = {"quick": [(8, 6000, 5000, 2, 16, 3), (16, 1500, 5000, 2, 30, 5), (3, 400, 5000, 1, 60, 20)],
+            "thorough": [(16, 40000, 10000, 4, 16, 2), (8, 40000, 10000, 2, 50, 5), (32, 5000, 10000, 4, 30, 5), (4, 3000, 10000, 1, 80, 20)]}
 
 
 def soak(V, tier, seed):
@@ -252,10 +380,13 @@ def soak(V, tier, seed):
     Update must return within the deadline, readers must only ever see a
     writer's own attributes under its ids, and the final answers must be what
     the extracted model computes from the writers' logs (by
-    C09_interleaving_equals_sequential any interleaving must end there)."""
+    C09_interleaving_equals_sequential any interleaving must end there); the
+    calls that panic must be exactly the requests for a family the RIB has no
+    support for (C09_panics_are_the_unsupported_requests), each caught around
+    its own process_update call."""
     r = {"name": "c09-soak", "evaluations": 0, "coverage": {"runs": []}, "failures": []}
-    for k, (nt, nops, deadline, readers, wd) in enumerate(SOAK_CFG["thorough" if tier == "thorough" else "quick"]):
-        args = [V.VH, "c09-soak", str(nt), str(nops), str((seed + k) & 0xffffffff), str(deadline), str(readers), str(wd)]
+    for k, (nt, nops, deadline, readers, wd, unsup) in enumerate(SOAK_CFG["thorough" if tier == "thorough" else "quick"]):
+        args = [V.VH, "c09-soak", str(nt), str(nops), str((seed + k) & 0xffffffff), str(deadline), str(readers), str(wd), str(unsup)]
         try:
             p = subprocess.run(args, stdout=subprocess.PIPE, stderr=subprocess.PIPE, text=True, timeout=600)
             lines = p.stdout.split("\n")
@@ -264,20 +395,26 @@ def soak(V, tier, seed):
         verdict = lines[0].strip() if lines else "no output"
         case = lines[1].strip() if len(lines) > 1 else ""
         final = lines[2].strip() if len(lines) > 2 else ""
-        run = {"writers": nt, "updates_per_writer": nops, "readers": readers, "withdraw_percent": wd, "deadline_ms": deadline, "result": verdict[:300]}
+        run = {"writers": nt, "updates_per_writer": nops, "readers": readers, "withdraw_percent": wd, "unsupported_family_per_mille": unsup,
+               "deadline_ms": deadline, "result": verdict[:300]}
         r["evaluations"] += nt * nops
         if not verdict.startswith("ok"):
             what = ("a writer's Update did not complete within the deadline" if verdict.startswith("stall") else
-                    "a reader saw an entry that no writer wrote" if verdict.startswith("corrupt") else "the soak failed")
+                    "a reader saw an entry that no writer wrote" if verdict.startswith("corrupt") else
+                    "an Update other than a request for an unsupported family panicked (or such a request returned)" if verdict.startswith("panic") else
+                    "the soak failed")
             r["failures"].append({"what": f"c09-soak: {what}: {verdict[:600]}", "kind": "property", "replay_cmd": " ".join(args)})
         else:
             # the sequential composition of the writers' logs (RibModel.rib_run); small runs also through the concurrent model itself
             model = V.run_lines(V.ORACLE, "c09seq", [case])[0]
             mo, spec = V.split_model(model)
-            run["judged_by"] = "RibModel.rib_run (concat logs)"
+            run["judged_by"] = "RibModel.rib_run (RibConc.effective (concat logs))"
             if nt * nops <= 3000:
                 m2, _ = V.split_model(V.run_lines(V.ORACLE, "c09", [case])[0])
                 run["judged_by"] += " and RibConc.run"
+                # the concurrent model also reports the calls that panic (one `panic` per unsupported request, before `F`)
+                run["model_panics"] = m2.split().count("panic")
+                m2 = " ".join(["F"] + final_tokens(m2))
                 if m2 != mo:
                     raise V.CheckBroken("oracle engines c09 and c09seq disagree on a soak log (contradicts C09_interleaving_equals_sequential)")
             if mo.startswith("MODEL-ERROR"):
@@ -302,7 +439,10 @@ LEVEL_TEXT = ("Theorems over ALL interleavings (any number of writers, any Updat
               "accesses of the bitmap loop): after every writer has finished, every (family, prefix, id) holds what its owner alone would have left "
               "(last write wins; the whole RIB equals the sequential composition); at any moment a reader sees a state its owner produced; every "
               "session-wide withdrawal of a finished writer is in effect; on the repaired code (withdraw_for_ingress serialised) no CAS ever fails, "
-              "there is no deadlock and every fair schedule finishes within work(init) rounds; for the code as it was the two-writer livelock is "
+              "there is no deadlock and every fair schedule finishes within work(init) rounds; a request for a family the RIB cannot withdraw panics "
+              "(that call, and no other call of anybody: C09_panics_are_the_unsupported_requests), leaves the RIB as it was and poisons the withdraw mutex, "
+              "which every later call takes all the same - all of the above holds for programs with such requests (`.lock().unwrap()` instead is "
+              "refuted: C09_unwrap_on_poison_refuted); for the code as it was the two-writer livelock is "
               "proved for every continuation (C09_cas_livelock_refuted). Kernel-checked, axiom-free. The model is tied to the code by replaying "
               "thousands of interleavings of whole Updates on the real RibUnitRunner and by a free-running multi-thread soak judged by the extracted model.")
 DESIGN_REF = "DESIGN.md section 6, C09"
